@@ -2,7 +2,8 @@
     Statements only; each closed by [exact] of a lemma in Proofs/. *)
 From Coq Require Import Permutation QArith.
 From DivanV Require Import Base.Res Generated.Consts Model.Natural Model.SortBy Model.ArgCmp Model.TreeCmp
-  Proofs.SortCmp Proofs.Natural Proofs.ArgCmp Proofs.ArgSb Proofs.TreeCmp.
+  Proofs.SortCmp Proofs.SortUniq Proofs.Natural Proofs.ArgCmp Proofs.ArgSb Proofs.ArgSbComplete
+  Proofs.TreeCmp Proofs.TreeSort Proofs.TreeSorted.
 Local Open Scope N_scope.
 
 (** Obligation on the generated constant: the tie-breaker table of
@@ -253,3 +254,59 @@ Theorem C16_sort_stable : forall {A} (P : A -> Prop) (c : A -> A -> comparison),
   filter (eqv_b c z) (isort c l) = filter (eqv_b c z) l.
 Proof. exact @isort_stable. Qed.
 Print Assumptions C16_sort_stable.
+
+(** Whole trees.  If every sibling set at every depth satisfies the three
+    conditions of [C16_treecmp_total] and every argument list the oracle
+    condition ([wf_tree]), then [sort_forest] returns — neither [OutOfFuel] nor
+    [NotTotalOrder] — and its result has the same entries under the same
+    parents ([tree_perm]), is obtained by putting every sibling set and every
+    argument list into a sorted permutation ([sorted_perm]), and is sorted at
+    every level for the comparator evaluated on the output's own nodes
+    ([tree_sorted]; sorting the descendants of a node does not change what the
+    comparator sees of it). *)
+Theorem C16_sort_forest_total : forall V vcmp fparse attr rev ts,
+  sib_ok ts -> Forall (wf_tree V vcmp fparse) ts ->
+  exists ts', sort_forest V vcmp fparse attr rev ts = Ok ts' /\
+    tree_perm (Parent [] None ts) (Parent [] None ts') /\
+    sorted_perm V vcmp fparse attr rev (Parent [] None ts) (Parent [] None ts') /\
+    tree_sorted attr rev (Parent [] None ts').
+Proof. exact sort_forest_total_sorted. Qed.
+Print Assumptions C16_sort_forest_total.
+
+Theorem C16_sort_forest_hyps_satisfiable :
+  sib_ok ex_forest /\ Forall (wf_tree fval fval_cmp dec_parse) ex_forest.
+Proof. exact sort_forest_hyps_satisfiable. Qed.
+Print Assumptions C16_sort_forest_hyps_satisfiable.
+
+(** Uniqueness up to ties: two sorted permutations of one list, for any total
+    preorder, agree position by position up to [Equal]; in particular for a
+    sibling set, in either direction, whatever (unstable) algorithm sorts it. *)
+Theorem C16_sorted_unique_upto_ties : forall {A} (P : A -> Prop) (c : A -> A -> comparison),
+  tpo_on P c -> forall l1 l2, Forall P l1 -> Permutation l1 l2 -> ssorted c l1 -> ssorted c l2 ->
+  Forall2 (fun x y => c x y = Eq) l1 l2.
+Proof. exact @sorted_perm_unique_upto_ties. Qed.
+Print Assumptions C16_sorted_unique_upto_ties.
+
+Theorem C16_siblings_unique_upto_ties : forall (S : tree -> Prop) attr rev,
+  addr_identity S -> loc_addr_uniform S -> consts_uniform S ->
+  let c := revc rev (cmp_by_attr attr) in
+  forall l l1 l2, Forall S l ->
+  Permutation l l1 -> ssorted c l1 -> Permutation l l2 -> ssorted c l2 ->
+  Forall2 (fun x y => c x y = Eq) l1 l2.
+Proof. exact siblings_unique_upto_ties. Qed.
+Print Assumptions C16_siblings_unique_upto_ties.
+
+(** Completeness of the specification of the argument sort: an output accepted
+    by [sort_sb] is the model's output (with [C16_sort_model_sb]: [sort_sb]
+    holds of exactly one output). *)
+Theorem C16_sort_sb_complete : forall V vcmp fparse names,
+  oracle_ok_on V vcmp fparse (in_names names) -> forall attr rev out,
+  sort_sb V vcmp fparse attr rev names out = true ->
+  sort_args V vcmp fparse attr rev names = Ok out.
+Proof. exact sort_sb_complete. Qed.
+Print Assumptions C16_sort_sb_complete.
+
+Theorem C16_sort_sb_dec_complete : forall attr rev names out,
+  sort_sb_dec attr rev names out = true -> sort_args_dec attr rev names = Ok out.
+Proof. exact sort_sb_dec_complete. Qed.
+Print Assumptions C16_sort_sb_dec_complete.
